@@ -409,7 +409,7 @@ async def _drive_h2(cfg: dict, batches: List[List[List[Tuple[bytes, bytes]]]], h
     `http.response.push` messages) and `["end", origin]` (it sends its complete response); `origin` = `"c<k>"`, the k-th stream
     opened by the client that reached an application, or `"p<k>"`, the k-th pushed stream.  Every push message is one op
     `{"op": "push", "accepted": did h2's push_stream return}` with an observation of its own.  `client`: what the client says
-    in its SETTINGS about push (`enable_push`, `max_streams`)."""
+    in its SETTINGS about push (`enable_push`)."""
     import h2.connection
     import h2.events
     from hypercorn.asyncio.worker_context import WorkerContext
@@ -850,6 +850,272 @@ def check_h2_e2e(ctx: Ctx, cases: List[dict]) -> None:
 
 
 # ==============================================================================================================
+# family: push (HTTP/2 server push: what `http.response.push` does to the request counter and to the connection)
+# ==============================================================================================================
+# Set to False to leave the family out (the generator and the judges stay in place).
+PUSH_FAMILY = True
+PUSH_SCRIPT = [["recv_body"], ["send", {"type": "http.response.push", "path": "/pushed", "headers": [(b"x-p", b"1")]}]] + OK_SCRIPT[1:]
+PUSH2_SCRIPT = [["recv_body"], ["send", {"type": "http.response.push", "path": "/pushed", "headers": [(b"x-p", b"1")]}],
+                ["send", {"type": "http.response.push", "path": "/pushed", "headers": [(b"x-p", b"2")]}]] + OK_SCRIPT[1:]
+
+
+def gen_push(ctx: Ctx) -> List[dict]:
+    """applications of served streams send `http.response.push`: accepted (client default), refused because the client said
+    ENABLE_PUSH = 0, refused because the pushing request is itself a pushed one, refused because close_connection() has run,
+    sent after the stream's own response has ended (raised into the application, never reaches h2); pushed responses are
+    completed or left open; around every request maximum the pushes move (each accepted push counts twice)"""
+    rng = ctx.rng
+    cases: List[dict] = []
+
+    def case(L: int, batches: List[int], push: List[List[list]], enable: Optional[bool] = None, h2c: bool = False) -> None:
+        cases.append({"family": "push", "cfg": {"keep_alive_max_requests": L}, "batches": batches, "push": push, "h2c": h2c,
+                      "client": {} if enable is None else {"enable_push": enable}})
+
+    for enable in (None, True, False):
+        # one request, 1..3 pushes; the pushed stream pushes too (always refused); pushed responses completed / left open
+        for n in (1, 2, 3):
+            case(1000, [1], [[["push", "c0", n], ["push", "p0", 1], ["end", "p0"], ["push", "c0", 1], ["end", "c0"], ["push", "c0", 1]]], enable)
+        # positions: the first / a middle / the last request of a connection pushes, one frame per read and batched
+        for pos in (0, 1, 2):
+            case(1000, [1, 1, 1], [[["push", f"c{pos}", 1]] if i == pos else [] for i in range(3)], enable)
+        case(1000, [3], [[["push", "c0", 1], ["push", "c2", 2], ["push", "p1", 1]]], enable)
+        case(1000, [2, 2], [[["push", "c1", 1]], [["push", "c0", 1], ["push", "c3", 1], ["end", "p0"], ["end", "p1"]]], enable)
+    # the request maximum: L client requests + pushes before / at / after the request that trips it
+    for L in (0, 1, 2, 3, 5):
+        for enable in (None, False):
+            case(L, [1] * (L + 3), [[["push", "c0", 1]]] + [[] for _ in range(L + 2)], enable)
+            case(L, [1] * (L + 3), [[["push", f"c{i}", 1]] for i in range(L + 3)], enable)
+            case(L, [1] * (L + 2), [[] for _ in range(L)] + [[["push", f"c{L}", 2]], [["push", f"c{L}", 1]]], enable)
+        case(L, [max(1, L), 2, 1], [[["push", "c0", L + 1]], [["push", "c0", 1]], []])
+    # the connection opened by `Upgrade: h2c`: stream 1 (the upgrade request) pushes before any HTTP/2 read
+    for L in (0, 1, 2, 4):
+        for enable in (None, False):
+            case(L, [1] * (L + 1), [[["push", "c0", 1]], [["push", "c1", 1]]] + [[] for _ in range(L)], enable, h2c=True)
+    for _ in range(ctx.budget(40, 600)):
+        L = rng.choice([0, 1, 2, 3, 4, 6, 1000])
+        batches = [rng.choice([1, 1, 1, 2, 3]) for _ in range(rng.randint(1, min(L, 4) + 2))]
+        push, total = [], 0
+        h2c = rng.random() < 0.2
+        for i in range(len(batches) + (1 if h2c else 0)):
+            total += batches[i - (1 if h2c else 0)] if i >= (1 if h2c else 0) else 1
+            acts = []
+            for _ in range(rng.choice([0, 1, 1, 2])):
+                kind = rng.choice(["push", "push", "push", "end"])
+                origin = rng.choice(["c", "c", "c", "p"]) + str(rng.randrange(max(1, total)))
+                acts.append(["push", origin, rng.choice([1, 1, 2])] if kind == "push" else ["end", origin])
+            push.append(acts)
+        case(L, batches, push, rng.choice([None, None, True, False]), h2c)
+    return cases
+
+
+def _judge_push(ctx: Ctx, case: dict, cfgm: dict, res: dict, sig: dict) -> None:
+    """the statement on the implementation's observation of a session with pushes: (1) the request maximum still holds for the
+    requests of the client, and the client is told to stop NO LATER than it would be were every application instance - pushed
+    ones included - counted once (pushes count twice: earlier is allowed, later is not); (2) a PUSH_PROMISE reaches the client
+    exactly when the push is one the protocol allows (the client did not disable push, the pushing request is one of the
+    client's, its response is still open, close_connection() has not run), it names the next even stream, and exactly one
+    application instance (GET, the pushed path, HTTP/2) is started for it; a refused push starts nothing and writes nothing"""
+    L = cfgm["keep_alive_max"]
+    enable = (case.get("client") or {}).get("enable_push")
+    # (2) per push message
+    want_next = 2
+    for e in res["push_log"]:
+        if e["what"] != "push":
+            continue
+        allowed = enable is not False and e["sid"] % 2 == 1 and not e["origin_ended"] and not e["conn_closed_before"]
+        why = ("client_disabled_push" if enable is False else "pushed_from_pushed_stream" if e["sid"] % 2 == 0 else
+               "after_own_response_ended" if e["origin_ended"] else "after_close_connection" if e["conn_closed_before"] else "allowed")
+        ctx.count("push.message", why)
+        psig = {**sig, "push": why}
+        if e["origin_ended"]:
+            # a message after the end of the response is invalid (C12): raised into the application, nothing else happens
+            if e["raised"] is None:
+                ctx.violation("push_after_response_end_accepted", case, e, psig)
+        elif e["raised"] is not None:
+            # a push the protocol cannot perform is ignored (ASGI: "if the client does not support push, ignore"), not raised
+            ctx.violation("push_raised_into_application", case, e, psig)
+        if allowed:
+            if e["new_promises"] != [[e["sid"], want_next]] or e["new_instances"] != [want_next]:
+                ctx.violation("push_not_performed", case, {**e, "want_promised": want_next}, psig)
+            else:
+                sc = res["scopes"].get(want_next) or {}
+                pr = next((p_ for p_ in res["client"]["promises"] if p_["promised"] == want_next), {"headers": []})
+                hd = dict((n, v) for n, v in pr["headers"])
+                if (sc.get("method"), sc.get("raw_path"), sc.get("http_version")) != ("GET", e["path"], "2") or hd.get(":method") != "GET" or hd.get(":path") != e["path"]:
+                    ctx.violation("pushed_request_differs", case, {"push": e, "scope": sc, "promise": pr}, psig)
+                want_next += 2
+        elif e["new_promises"] or e["new_instances"]:
+            ctx.violation("refused_push_performed", case, e, psig)
+        if e["accepted"] != allowed:
+            # h2's own answer (the model's oracle input) against the protocol rule as the harness computes it
+            ctx.violation("push_stream_outcome_unexpected", case, e, psig)
+    # pushed responses that were completed reached the client on the promised stream
+    for e in res["push_log"]:
+        if e["what"] == "end" and e["sid"] % 2 == 0 and not e.get("conn_closed"):
+            st = res["client"]["streams"].get(e["sid"]) or {}
+            closed_before = any(g for g in (res["obs"][-1]["goaways"] if res["obs"] else []))
+            ctx.count("push.response", "delivered" if st.get("ended") and st.get("status") == 200 else ("lost_after_goaway" if closed_before else "lost"))
+            if not (st.get("ended") and st.get("status") == 200) and not closed_before:
+                ctx.violation("pushed_response_lost", case, {"sid": e["sid"], "client": st}, sig)
+    # (1) "never later": the read in which the number of instances started (served + pushed, each once) first exceeds L by a
+    # request of the client must be answered by a GOAWAY in that read
+    reads = [o for o in res["obs"] if o["op"] == "read"]
+    prev_total = len(res["pre"]["served"])
+    first_goaway = next((i for i, o in enumerate(reads) if o["goaways"]), None)
+    seen_before: List[int] = list(res["pre"]["served"])
+    idx = -1
+    for o in res["obs"]:
+        if o["op"] == "read":
+            idx += 1
+            new_client = [x for x in o["served"] if x not in seen_before]
+            if new_client and prev_total + len(new_client) > L and (first_goaway is None or first_goaway > idx):
+                ctx.violation("goaway_missing_at_max", case, {"read": idx, "instances_before": prev_total, "new": new_client, "L": L, "first_goaway_read": first_goaway},
+                              {**sig, "counting": "pushes_once"})
+                break
+        seen_before = list(o["served"])
+        prev_total = len(o["served"]) + len(o["pushed"])
+    if first_goaway is not None:
+        at = reads[first_goaway]
+        once = len(at["served"]) + len(at["pushed"])
+        ctx.count("push.goaway_vs_count_once", "earlier" if once <= L and at["pushed"] else "same")
+
+
+def check_push_direct(ctx: Ctx, cases: List[dict]) -> None:
+    model_reqs = []
+    for case in cases:
+        batches = _h2_batches(case)
+        res = asyncio.run(_drive_h2(case["cfg"], batches, h2c=bool(case.get("h2c")), push=case["push"], client=case.get("client") or {}))
+        ctx.evaluations += 1
+        ctx.traces_validated += 1
+        cfgm = _h2_model_cfg(case["cfg"])
+        c2 = {**case, "layer": "direct"}
+        sig = {"family": "push", "layer": "direct"}
+        ctx.count("push.limit", f"keep_alive_max_requests={case['cfg']['keep_alive_max_requests']}")
+        ctx.count("push.client", str((case.get("client") or {}).get("enable_push")))
+        ctx.count("h2.opening", "h2c" if case.get("h2c") else "h2")
+        exc = [o["handler_exception"] for o in res["obs"] if o["handler_exception"]]
+        if exc or res["parse_error"]:
+            ctx.violation("handler_exception", c2, {"exc": exc, "parse": res["parse_error"]}, {**sig, "error": (exc or [res["parse_error"]])[0]})
+            continue
+        kinds = sorted({("accepted" if e["accepted"] else (e["refusal"] or e["raised"] or "not_called")) for e in res["push_log"] if e["what"] == "push"})
+        ctx.distinct(["push", "direct", case["cfg"], case["batches"], case.get("client"), bool(case.get("h2c")), kinds, len(res["push_log"])])
+        ctx.sample({"family": "push", "cfg": case["cfg"], "batches": case["batches"], "push": case["push"], "client": case.get("client")}, cap=6)
+        reads = [o for o in res["obs"] if o["op"] == "read"]
+        _judge_h2(ctx, {**c2, "streams_complete": True}, cfgm, reads, batches, res["settings"], sig)
+        _judge_push(ctx, c2, cfgm, res, sig)
+        model_reqs.append(({"cmd": "c18.h2", "cfg": cfgm, "ops": res["ops"], "h2c": bool(case.get("h2c"))}, c2, res))
+    out = ctx.model([m for m, _, _ in model_reqs])
+    if out is None:
+        return
+    for (rq, c2, res), m in zip(model_reqs, out):
+        ctx.disagreements_checked += 1
+        mo = m.get("ok")
+        if mo is None or len(mo["states"]) != len(res["obs"]):
+            ctx.disagree("c18.h2.push", c2, m, None)
+            continue
+        for i, (ms, o) in enumerate(zip(mo["states"], res["obs"])):
+            impl = {k: o[k] for k in ("served", "pushed", "goaways", "up_closed", "kar")}
+            mod = {k: ms[k] for k in ("served", "pushed", "goaways", "up_closed", "kar")}
+            if impl != mod:
+                ctx.disagree("c18.h2.push", {**c2, "op": i, "kind": o["op"]}, mod, {**impl, "ops": rq["ops"][:i + 1][-3:]})
+                break
+
+
+def gen_push_e2e(ctx: Ctx) -> List[dict]:
+    out = []
+    for L, n_req, script, enable in [(1000, 2, "push1", None), (1000, 2, "push1", False), (1000, 1, "push2", None), (3, 3, "push1", None),
+                                      (3, 3, "push1", False), (0, 2, "push1", None)] + ([(2, 3, "push2", None), (1, 3, "push1", True)] if ctx.thorough else []):
+        out.append({"family": "push", "cfg": {"keep_alive_max_requests": L}, "batches": [1] * n_req, "client": {} if enable is None else {"enable_push": enable},
+                    "script": script})
+    return out
+
+
+def check_push_e2e(ctx: Ctx, cases: List[dict]) -> None:
+    """the same through the real TCPServer of both workers: every instance runs a script that pushes once (or twice) before it
+    answers, so the pushed instances push too (refused); the client reads PUSH_PROMISEs, responses and GOAWAYs"""
+    for case in cases:
+        L = case["cfg"]["keep_alive_max_requests"]
+        enable = (case.get("client") or {}).get("enable_push")
+        script = PUSH2_SCRIPT if case["script"] == "push2" else PUSH_SCRIPT
+        batches = _h2_batches(case)
+        per_req = 2 if script is PUSH2_SCRIPT else 1
+        for worker in ("asyncio", "trio"):
+            async def client(io):
+                cl = RH.RogueH2(**case["client"])
+                await io.send(cl.out())
+                cl.feed(io.take())
+                settings = dict(cl.settings)
+                per = []
+                for batch in batches:
+                    if io.closed_at is not None:
+                        break
+                    for hs in batch:
+                        cl.request(hs)
+                    await io.send(cl.out())
+                    await io.sleep(0.3)
+                    cl.feed(io.take())
+                    per.append({"goaways": [[g["last"], g["code"]] for g in cl.goaways], "up_closed": io.closed_at is not None,
+                                "promises": [[p_["parent"], p_["promised"]] for p_ in cl.promises]})
+                await io.sleep(0.4)
+                cl.feed(io.take())
+                return {"per": per, "settings": {str(k): v for k, v in settings.items()}, "summary": cl.summary()}
+            res = R.RUNNERS[worker]({**case["cfg"], "keep_alive_timeout": 3}, "h2", client, [script], tail=8)
+            ctx.evaluations += 1
+            ctx.count("e2e.worker", worker)
+            c2 = {**case, "layer": "e2e", "worker": worker}
+            sig = {"family": "push", "layer": "e2e", "worker": worker}
+            cr = res.get("client_result")
+            if res.get("stuck_session") or res["error"] or res["loop_errors"] or cr is None or cr["summary"]["parse_error"]:
+                ctx.violation("handler_exception", c2, {"error": res["error"], "loop": res["loop_errors"], "client": res.get("client_error"),
+                                                        "parse": cr and cr["summary"]["parse_error"]}, {**sig, "error": str(res["error"] or res.get("client_error"))})
+                continue
+            ctx.distinct(["push", "e2e", worker, case["cfg"], case["batches"], case["client"], case["script"]])
+            apps = sorted(res["apps"], key=lambda a: a["t_start"])
+            served = [a for a in apps if a["scope"]["path"].startswith("/r")]
+            pushed = [a for a in apps if a["scope"]["path"] == "/pushed"]
+            promises = cr["summary"]["promises"]
+            goaways = cr["summary"]["goaways"]
+            streams = cr["summary"]["streams"]
+            # the request maximum for the client's requests
+            if len(served) > L + 1:
+                ctx.violation("h2_served_beyond_max", c2, {"served": len(served), "L": L}, {**sig, "batching": "single"})
+            # never later than counting every instance once: request k arrives with (k-1)*(1+pushes per request) instances before it
+            for k, per in enumerate(cr["per"]):
+                if k < len(served) and (k * (1 + (per_req if enable is not False else 0)) + 1) > L and not per["goaways"]:
+                    ctx.violation("goaway_missing_at_max", c2, {"read": k, "L": L, "per": per}, {**sig, "counting": "pushes_once"})
+                    break
+            # pushes: exactly `per_req` per served request unless the client disabled push or the connection was closed for sending
+            # by close_connection() before the application ran (F48 territory: requests served in the read of the GOAWAY)
+            tripped = [int(p_) for g in goaways for p_ in [g["last"]]]
+            for a in served:
+                sid = 2 * int(a["scope"]["path"][2:]) + 1
+                mine = [p_ for p_ in promises if p_["parent"] == sid]
+                after_close = bool(tripped) and sid >= min(tripped)
+                want = 0 if (enable is False or after_close) else per_req
+                ctx.count("push.e2e", f"{'refused' if want == 0 else 'accepted'}:{len(mine)}")
+                if len(mine) != want:
+                    ctx.violation("push_not_performed" if len(mine) < want else "refused_push_performed", c2,
+                                  {"sid": sid, "promises": mine, "want": want}, {**sig, "push": "client_disabled_push" if enable is False else ("after_close_connection" if after_close else "allowed")})
+            if any(p_["parent"] % 2 == 0 for p_ in promises):
+                ctx.violation("refused_push_performed", c2, promises, {**sig, "push": "pushed_from_pushed_stream"})
+            if len(pushed) != len(promises) or sorted(p_["promised"] for p_ in promises) != [2 * (i + 1) for i in range(len(promises))]:
+                ctx.violation("push_not_performed", c2, {"promises": promises, "pushed_instances": len(pushed)}, {**sig, "push": "allowed"})
+            for p_ in promises:
+                hd = dict((n, v) for n, v in p_["headers"])
+                st = streams.get(str(p_["promised"])) or {}
+                if hd.get(":method") != "GET" or hd.get(":path") != "/pushed":
+                    ctx.violation("pushed_request_differs", c2, p_, sig)
+                # the pushed response (every instance answers) arrives on the promised stream unless close_connection() came first
+                if not (st.get("status") == 200 and st.get("ended")) and not goaways:
+                    ctx.violation("pushed_response_lost", c2, {"promise": p_, "client": st}, sig)
+            for a in pushed:
+                # the pushing message of a pushed instance was refused without raising
+                bad = [x for x in a["send"] if x[2] != "ok"]
+                if bad and not goaways:
+                    ctx.violation("push_raised_into_application", c2, bad, {**sig, "push": "pushed_from_pushed_stream"})
+
+
+# ==============================================================================================================
 # family: recycle
 # ==============================================================================================================
 def check_recycle_unit(ctx: Ctx) -> None:
@@ -1065,6 +1331,9 @@ def run(ctx: Ctx) -> None:
     h2 = gen_h2(ctx)
     check_h2_direct(ctx, h2)
     check_h2_e2e(ctx, h2 if ctx.thorough else [c for i, c in enumerate(h2) if i % 3 == 0 or c["family"] == "h2lim" and i % 2 == 0])
+    if PUSH_FAMILY:
+        check_push_direct(ctx, gen_push(ctx))
+        check_push_e2e(ctx, gen_push_e2e(ctx))
     check_recycle_unit(ctx)
     check_recycle_worker(ctx, gen_recycle(ctx))
 
@@ -1084,6 +1353,9 @@ def replay(ctx: Ctx, case: dict) -> None:
         (check_ka1_e2e if layer == "e2e" else check_ka1_direct)(ctx, [base])
     elif fam in ("ka2", "h2lim"):
         (check_h2_e2e if layer == "e2e" else check_h2_direct)(ctx, [base])
+    elif fam == "push":
+        base = {k: v for k, v in base.items() if k not in ("op", "kind", "streams_complete")}
+        (check_push_e2e if layer == "e2e" else check_push_direct)(ctx, [base])
     elif fam == "recycle" and layer == "unit":
         check_recycle_unit(ctx)
     elif fam == "recycle":
